@@ -186,4 +186,36 @@ CLAIMED = {
              "caller; parallel dispatch requires maxThreads >= 2; the caller adds no body invocation on top of maxThreads running ones.",
         note="run-time peak concurrency and work stolen by waiting callers are not decided",
     ),
+    "C20": dict(
+        technique="guard-dominance / disjunctive edge-removal reachability over clang CFGs of the timed waits",
+        text="waitFor/waitUntil return true only under an acquire load == completedStatus and false only for a non-positive timeout or errno == ETIMEDOUT "
+             "(EAGAIN/EINTR must re-check); Future timed waits report ready only after a positive wait result and pass their own allowInline_ flag.",
+        note="elapsed time itself is kernel behaviour and is not decided",
+    ),
+    "C22": dict(
+        technique="finite-state protocol analysis (reader count held/validated/released; writer bit ours/theirs) over clang CFGs of RWLockImpl",
+        text="Every reader-count increment is validated against the writer bit using the result of that very increment, or released, before the function "
+             "returns; try_lock clears the writer bit on failure iff it set it and succeeds only after seeing no readers; decrement/clear/wake/drain "
+             "constants and sites are as the protocol requires.",
+        note="mutual exclusion and progress under interleavings are model-checking territory and are not decided",
+    ),
+    "C23": dict(
+        technique="ordering/loop-bound rules on the two-phase writer protocol + the RWLockImpl slot protocol analysis shared with C22",
+        text="Writers claim all N writer bits before draining any slot, both over 0..N; try_lock's failure at slot i unlocks exactly [0,i) and returns "
+             "false; unlock covers all slots; readers mask their index; and each slot obeys the RWLockImpl reader-entry/writer/release rules.",
+        note="as C22",
+    ),
+    "C26": dict(
+        technique="dominance/ordering rules (announce-then-check vs cancel-then-wait) + constant-mask and gate comparisons over clang CFGs",
+        text="kickOffTask announces (RAII inProgress++) before it checks the cancelled flag (seq_cst) and before it touches func; the destructor skips the "
+             "teardown only for detached tasks, otherwise cancel -> drain inProgress -> clear func; func runs only while runs remain and is re-queued "
+             "only when more remain; a false return stops further runs.",
+        note="clock-related clauses are not decided",
+    ),
+    "C46": dict(
+        technique="site enumeration + guard-dominance (canInlineSchedule) + live RAII guard check over clang CFGs, with a reasoned exemption list",
+        text="Every inline-execution site in dispenso's scheduling/completion paths is dominated by canInlineSchedule() and a live InlineDepthGuard, or is "
+             "exempt for a stated reason; Future::wait running an unstarted future inline has no limit and is a recorded known finding.",
+        note="bytes of stack and user-level recursion are not decided",
+    ),
 }
